@@ -50,6 +50,7 @@ Call(c) ==
   /\ Enabled(File, c)
   /\ (c[1] = "add_row" => Len(gens) < 3)
   /\ (c[1] = "spoil" => res.oc = "ok")
+  /\ (n = Depth - 1 => (IsQuery(c) \/ c[1] = "spoil"))      \* an edit is seen by the queries after it
   /\ n' = n + 1
   /\ LET f == Edit(File, c) IN gens' = f.gens /\ opers' = f.opers /\ missing' = f.missing
   /\ IF IsQuery(c) THEN res' = Expected(File, c) /\ strict' = StrictQuery(File, c)
